@@ -483,7 +483,9 @@ mod eio_impl {
     }
     impl eio::blocking::Write for SimWriter {
         fn write(&mut self, buf: &[u8]) -> Result<usize, EioErr> {
-            match self.do_write(buf, false, false) {
+            // embedded-io 0.4: "Semantics are the same as std::io::Write" — Ok(0) is a legal
+            // answer (its own `&mut [u8]` writer gives it when full). 0.6 forbids it.
+            match self.do_write(buf, true, false) {
                 IoOut::Ok(n) => Ok(n),
                 _ => Err(EioErr(false)),
             }
